@@ -4,6 +4,7 @@ import (
 	"encoding/json"
 	"fmt"
 	"strings"
+	"verif/memfs"
 
 	"github.com/tonistiigi/fsutil"
 	"github.com/tonistiigi/fsutil/types"
@@ -97,6 +98,14 @@ func judgeNotes(o *SyncObs) (string, string) {
 			}
 			if !sameStat(st, n.Stat) {
 				return "note-stat-differs", fmt.Sprintf("%s %s reported with %s, sent as %s", n.Kind, n.Path, statString(n.Stat), statString(st))
+			}
+			// ... and it is the metadata the destination now has (type, mode, owner, device numbers, link target)
+			if a := o.After.Find(n.Path); a != nil && a.Kind != fsmodel.Socket && upserts[n.Path] == 1 {
+				as := memfs.StatOf(*a, nil)
+				if as.Mode != n.Stat.Mode || (!o.Filter && (as.Uid != n.Stat.Uid || as.Gid != n.Stat.Gid)) || as.Devmajor != n.Stat.Devmajor || as.Devminor != n.Stat.Devminor ||
+					(a.Kind == fsmodel.Symlink && as.Linkname != n.Stat.Linkname) {
+					return "note-differs-from-dest", fmt.Sprintf("%s %s reported with %s, the destination holds %s", n.Kind, n.Path, statString(n.Stat), statString(as))
+				}
 			}
 			// digest
 			after := o.After.Find(n.Path)
